@@ -1,5 +1,6 @@
 import Pyxv.Model.Json
 import Pyxv.Model.SettingsSpec
+import Pyxv.Model.SettingsRows
 /-! Driver operations for the settings → header model and the C11 spec. -/
 namespace Pyxv.Settings
 open Lean Pyxv
@@ -52,6 +53,16 @@ def specToJson (σ : Spec.Sigma) (a : Args) (seenRoot seenSub seenNs : List Str)
     ("instanceID", Json.bool (Spec.want σ a .instanceID).isSome),
     ("instanceName", optToJson (Spec.want σ a .instanceName))]
 
+/-- `[[type, name | null], …]` -/
+def surveyRowsOfJson (j : Json) : List (Str × Option Str) :=
+  match j.getObjVal? "survey_settings" with
+  | .ok (.arr rows) => rows.toList.filterMap fun r =>
+      match r with
+      | .arr #[.str t, .str n] => some (t.toList, some n.toList)
+      | .arr #[.str t, _] => some (t.toList, none)
+      | _ => none
+  | _ => []
+
 def opsSettings (op : String) (j : Json) : Option (Except String Json) :=
   match op with
   | "settings.model" => some do
@@ -60,8 +71,10 @@ def opsSettings (op : String) (j : Json) : Option (Except String Json) :=
       | .ok (.arr _) =>
         let hdr ← getStrList j "hdr"
         let row ← pairList (← j.getObjVal? "row")
-        pure (outToJson (model (some (hdr, row)) a))
-      | _ => pure (outToJson (model none a))
+        let dl : Json := match dealias hdr row with | .ok st => jstr (defaultLanguageOf st a) | .error _ => Json.null
+        pure ((outToJson (model2 (some (hdr, row)) (surveyRowsOfJson j) a)).setObjVal! "defaultLanguage" dl)
+      | _ => pure ((outToJson (model2 none (surveyRowsOfJson j) a)).setObjVal! "defaultLanguage"
+                (jstr (defaultLanguageOf [] a)))
   | "settings.dealias" => some do
       let hdr ← getStrList j "hdr"
       let row ← pairList (← j.getObjVal? "row")
@@ -78,7 +91,13 @@ def opsSettings (op : String) (j : Json) : Option (Except String Json) :=
       let d : Dict := cleanD ((st.map fun kv => (kv.1, SVal.s kv.2)) ++
         (if at_.isEmpty then [] else [(S "attribute", SVal.d at_)]))
       let seen (k : String) : List Str := match getStrList j k with | .ok l => l | .error _ => []
-      pure (specToJson (fun k => aget k d) a (seen "seenRoot") (seen "seenSub") (seen "seenNs"))
+      -- settings the harness read off the survey sheet's settings rows (its own table): canonical name ↦ text
+      let ov : Dict := match j.getObjVal? "overlay" with
+        | .ok v => (match pairList v with | .ok l => l.map fun kv => (kv.1, SVal.s kv.2) | .error _ => [])
+        | .error _ => []
+      let σ : Spec.Sigma := if ov.isEmpty then (fun k => aget k d) else Spec.overlay (fun k => aget k d) a ov
+      pure ((specToJson σ a (seen "seenRoot") (seen "seenSub") (seen "seenNs")).setObjVal! "defaultLanguage"
+        (jstr (Spec.defaultLanguage (fun k => aget k d) a)))
   | "settings.process_header" => some do
       let h ← getStr j "h"
       let p := processHeader (getBoolD j "dc" false) h
